@@ -1,4 +1,5 @@
 import RpmVerif.Model.Getters
+import RpmVerif.Gen.FileDigestLen
 /-!
 # L3: metadata accessors of `PackageMetadata` (src/rpm/package.rs)
 
@@ -109,11 +110,11 @@ def getFileDigestAlgorithm (h : Header) : Out Nat := do
   let x ← getU32 h IndexTag.RPMTAG_FILEDIGESTALGO
   if digestAlgoTable.any (·.2 == x) then pure x else .err "enum"
 
-/-- `FileDigest::new`: hex length must fit the algorithm (numbers as in `DigestAlgorithm`) -/
-def fileDigestNew (algo : Nat) (hex : Bytes) : Out (Nat × Bytes) :=
-  let want : Option Nat := match algo with
-    | 1 => some 32 | 8 => some 64 | 11 => some 60 | 9 => some 96 | 10 => some 128 | _ => none
-  if want = some hex.length then .ok (algo, hex) else .err "unsupported"
+/-- `FileDigest::new`: the hex length must be the one the source pairs with the algorithm (numbers as in
+`DigestAlgorithm`); `tbl` is that pairing — by default the table regenerated from src/rpm/headers/header.rs on every
+run (`Gen.fileDigestHexLen`); the specification instantiates it with the standard digest sizes instead. -/
+def fileDigestNew (algo : Nat) (hex : Bytes) (tbl : List (Nat × Nat) := fileDigestHexLen) : Out (Nat × Bytes) :=
+  if tbl.any (fun p => p.1 == algo && p.2 == hex.length) then .ok (algo, hex) else .err "unsupported"
 
 /-- optional string-array tag: Ok → Some, TagNotFound → None, other errors propagate -/
 def optStrings (r : Out (List Bytes)) : Out (Option (List Bytes)) :=
@@ -124,21 +125,21 @@ def optStrings (r : Out (List Bytes)) : Out (Option (List Bytes)) :=
   | .panic s => .panic s
 
 /-- `if digest.is_empty() { None } else { Some(FileDigest::new(algorithm, digest)?) }` -/
-def digestOf (algo : Nat) (d : Bytes) : Out (Option (Nat × Bytes)) :=
-  if d.isEmpty then .ok none else (fileDigestNew algo d).map some
+def digestOf (algo : Nat) (d : Bytes) (tbl : List (Nat × Nat) := fileDigestHexLen) : Out (Option (Nat × Bytes)) :=
+  if d.isEmpty then .ok none else (fileDigestNew algo d tbl).map some
 
-def buildEntries (algo : Nat) (caps ima : Option (List Bytes)) :
+def buildEntries (algo : Nat) (caps ima : Option (List Bytes)) (tbl : List (Nat × Nat) := fileDigestHexLen) :
     Nat → List Bytes → List Bytes → List Bytes → List Nat → List Bytes → List Nat → List Nat → List Nat → List Bytes →
     Out (List FileEntry)
   | idx, p :: ps, u :: us, g :: gs, m :: ms, d :: ds, t :: ts, s :: ss, f :: fs, l :: ls => do
-    let digest ← digestOf algo d
+    let digest ← digestOf algo d tbl
     let e : FileEntry := ⟨p, m, u, g, t, s, f, digest, caps.bind (·[idx]?), l, ima.bind (·[idx]?)⟩
-    let r ← buildEntries algo caps ima (idx + 1) ps us gs ms ds ts ss fs ls
+    let r ← buildEntries algo caps ima tbl (idx + 1) ps us gs ms ds ts ss fs ls
     pure (e :: r)
   | _, _, _, _, _, _, _, _, _, _ => .ok []
 
 /-- `get_file_entries` (`sig` is the signature header, for the IMA signatures) -/
-def getFileEntries (sig h : Header) : Out (List FileEntry) :=
+def getFileEntries (sig h : Header) (tbl : List (Nat × Nat) := fileDigestHexLen) : Out (List FileEntry) :=
   let algo := match getFileDigestAlgorithm h with | .ok a => a | _ => 1
   let modes := getU16Array h IndexTag.RPMTAG_FILEMODES
   if isNotFound modes then .ok [] else
@@ -162,7 +163,7 @@ def getFileEntries (sig h : Header) : Out (List FileEntry) :=
   match modes, users, groups, digests, mtimes, sizes, flags, links with
   | .ok ms, .ok us, .ok gs, .ok ds, .ok ts, .ok ss, .ok fs, .ok ls => do
     let paths ← getFilePaths h
-    buildEntries algo caps ima 0 paths us gs ms ds ts ss fs ls
+    buildEntries algo caps ima tbl 0 paths us gs ms ds ts ss fs ls
   | _, _, _, _, _, _, _, _ => do
     let _ ← modes; let _ ← users; let _ ← groups; let _ ← digests; let _ ← mtimes; let _ ← sizes; let _ ← flags; let _ ← links
     .panic "unreachable"
